@@ -186,12 +186,58 @@ def applyGroup (t : Tree) (hasOverlay : Bool) (gp : Path) (g : List Transpo) : E
       if hasOverlay then copyFile t gp first.outputPath false
       else moveFile t gp first.outputPath
 
+/-! ### `moveSourcesAside` (repair of finding F8 (3))
+
+  A file of the old build that some file of the new build is a copy of (a transposition source) and whose own path
+  is a DIRECTORY of the new build is renamed to `<path>.butler-aside-N` before the directories are made
+  (`ensureDir` would clear it away); `applyTranspositions` reads it from there (`asideOf`).  `N` is numbered in
+  the recording order of the transpositions, skipping the numbers whose name is a path of either build, as for the
+  `.butler-rename-N` names. -/
+
+def asideName (p : Path) (seed : Nat) : Path :=
+  match p.getLast? with
+  | some l => p.dropLast ++ [l ++ ".butler-aside-" ++ toString seed]
+  | none => p
+
+/-- the skip loop `for pathInUse[asidePath] { asideSeed++; … }`, on fuel as `nextFree` -/
+def nextFreeAside (used : List Path) (p : Path) : Nat → Nat → Nat
+  | 0, seed => seed
+  | fuel + 1, seed => if used.contains (asideName p seed) then nextFreeAside used p fuel (seed + 1) else seed
+
+/-- where a transposition source is read from: its aside name if it was moved aside, else its own path -/
+def asideOf (aside : List (Path × Path)) (p : Path) : Path :=
+  match aside.find? (·.1 == p) with
+  | some (_, a) => a
+  | none => p
+
+/-- `moveSourcesAside`: returns the tree and the map old path ↦ aside path (in the order the moves were made);
+    the third component of the state is `asideSeed`. -/
+def moveSourcesAside (old new : Build) (w : Work) (t : Tree) : Except Err (Tree × List (Path × Path)) := do
+  let used := pathsInUse old new
+  let (t, aside, _) ← w.transpositions.foldlM (fun (st : Tree × List (Path × Path) × Nat) (x : Nat × Nat) =>
+    let (t, aside, seed) := st
+    match old.files[x.2]? with
+    | none => .error .einval
+    | some (op, _) =>
+      if !new.dirs.contains op || aside.any (·.1 == op) then .ok (t, aside, seed)
+      else
+        let seed := nextFreeAside used op (used.length + 1) (seed + 1)
+        let a := asideName op seed
+        match moveFile t op a with
+        | .ok t' => .ok (t', aside ++ [(op, a)], seed)
+        | .error e => .error e) (t, [], 0)
+  pure (t, aside)
+
 /-- `applyTranspositions` with the visiting orders of the two map loops as parameters. -/
-def applyTranspositions (old new : Build) (w : Work) (order₁ order₂ : List Path) (t : Tree) : Except Err Tree := do
+def applyTranspositions (old new : Build) (w : Work) (order₁ order₂ : List Path) (t : Tree)
+    (aside : List (Path × Path) := []) : Except Err Tree := do
   let ts : List Transpo := w.transpositions.filterMap fun (s, tg) =>
     match new.files[s]?, old.files[tg]? with
-    | some (np, _), some (op, _) => some { targetPath := op, outputPath := np }
+    | some (np, _), some (op, _) => some { targetPath := asideOf aside op, outputPath := np }
     | _, _ => none
+  -- the Go map is keyed by the path a source is read from; the visiting orders are given over the old paths
+  let order₁ := order₁.map (asideOf aside)
+  let order₂ := order₂.map (asideOf aside)
   let sources := (ts.map (·.targetPath)).eraseDups
   let (groups₁, cleanup) := safePass (groupsOf ts order₁) sources (pathsInUse old new) old.dirs
   -- the second loop visits the same (rewritten) groups in its own order
@@ -245,8 +291,9 @@ def deleteGhosts (old new : Build) (t : Tree) : Except Err Tree :=
     transpositions, the staged moves and the overlays (`ensureDirs` … `applyOverlays`, `ensureSymlinks`,
     `deleteGhosts`): what a new symlink replaces may still have to be renamed or copied elsewhere. -/
 def commit (old new : Build) (w : Work) (order₁ order₂ : List Path) (t : Tree) : Except Err Tree := do
+  let (t, aside) ← moveSourcesAside old new w t
   let t ← new.dirs.foldlM ensureDir t
-  let t ← applyTranspositions old new w order₁ order₂ t
+  let t ← applyTranspositions old new w order₁ order₂ t aside
   let t ← applyMoves new w t
   let t ← applyOverlays new w t
   let t ← new.symlinks.foldlM (fun t (p, d) => ensureSymlink t p d) t
